@@ -1289,7 +1289,7 @@ def gen_file(rng, tag, per_shape, renamed, crlf):
 
 def gen_shapes(ctx, genbin=None):
     rng = vlib.SplitMix(ctx.seed).fork("shapes")
-    per = 3 if ctx.quick else 14
+    per = 2 if ctx.quick else 14
     d = os.path.dirname(ctx.path("gen", "src", "go.mod"))
     open(os.path.join(d, "go.mod"), "w").write("module example.com/gen\ngo 1.21\n")
     open(os.path.join(d, "support.go"), "w").write(GEN_SUPPORT + "\nvar funcs []fn\n")
@@ -1354,7 +1354,7 @@ def build_and_run(ctx, name, srcdir, files):
     return out, ""
 
 
-def run_behaviour(ctx, gen, res, files):
+def run_behaviour(ctx, gen, res, files, before_f=None):
     job = gen["jobs"][0]
     o = res[job["id"]]
     srcdir = gen["dir"]
@@ -1374,7 +1374,8 @@ def run_behaviour(ctx, gen, res, files):
                     triggered[shape] = triggered.get(shape, 0) + 1
                 break
     pool = ThreadPoolExecutor(max_workers=5)
-    before_f = pool.submit(build_and_run, ctx, "before", srcdir, {})
+    if before_f is None:
+        before_f = pool.submit(build_and_run, ctx, "before", srcdir, {})
     fails, samples = [], []
     runs = 0
     compared = set()
@@ -1544,7 +1545,7 @@ def sample_units(ctx, units):
     # checks with fixes are what clause (iii) is about: always keep a share of them
     fixy = [u for u in units if re.match(r"(s1|qf1)\d+", u[0])]
     rest = [u for u in units if u not in fixy]
-    n1, n2 = 20, 10
+    n1, n2 = 14, 6
     pick = rng.shuffle(fixy)[:n1] + rng.shuffle(rest)[:n2]
     return rng.shuffle(sorted(pick))
 
@@ -1593,6 +1594,12 @@ def run(ctx):
     gen = gen_shapes(ctx)
     jobs += gen["jobs"]
     timing["corpus"] = round(time.time() - t0, 1)
+    # work that does not depend on the lint results runs beside it
+    bg = ThreadPoolExecutor(max_workers=4)
+    before_f = bg.submit(build_and_run, ctx, "before", gen["dir"], {})
+    gedits_f = bg.submit(tie_generated_edits, ctx, applybin, 1500 if ctx.quick else 20000)
+    gpos_f = bg.submit(tie_generated_pos, ctx, applybin, 1000 if ctx.quick else 10000)
+    rw_f = bg.submit(tie_rewrite, ctx, applybin, 3000 if ctx.quick else 30000)
 
     if only_job:
         jobs = [j for j in jobs if j["id"] == only_job]
@@ -1618,20 +1625,21 @@ def run(ctx):
     if only_job and only_job != gen["jobs"][0]["id"]:
         beh = {"fails": [], "runs": 0, "distinct": 0, "summary": {}, "samples": []}
     else:
-        beh = run_behaviour(ctx, gen, res, files)
+        beh = run_behaviour(ctx, gen, res, files, before_f)
     fails += beh["fails"]
     timing["behaviour"] = round(time.time() - t0, 1)
 
     # ---- ties
     npos, pos_diffs = tie_positions(ctx, files, acc, maxfiles=60 if ctx.quick else None)
     nfix, napart, edit_diffs = tie_edits(ctx, files, acc)
-    ngen, edit_hist, gen_edit_diffs, edit_samples = tie_generated_edits(ctx, applybin, 1500 if ctx.quick else 20000)
+    ngen, edit_hist, gen_edit_diffs, edit_samples = gedits_f.result()
     gofiles = sorted(f for f in files if files[f] is not None and f.endswith(".go") and ("/corpus/" in f or "/gen/src/" in f))
     if ctx.quick and len(gofiles) > 60:
         gofiles = vlib.SplitMix(ctx.seed).fork("shortfiles").shuffle(gofiles)[:60]
     nshort, short_kinds, short_diffs, short_viol, inv_fail = tie_short(ctx, applybin, gofiles)
-    ngpos, gpos_diffs, gpos_viol = tie_generated_pos(ctx, applybin, 1000 if ctx.quick else 10000)
-    nrw, nrw_changed, rw_diffs, rw_samples = tie_rewrite(ctx, applybin, 3000 if ctx.quick else 30000)
+    ngpos, gpos_diffs, gpos_viol = gpos_f.result()
+    nrw, nrw_changed, rw_diffs, rw_samples = rw_f.result()
+    bg.shutdown()
     timing["ties"] = round(time.time() - t0, 1)
 
     # ---- report
